@@ -243,6 +243,8 @@ def bound_args(repo, fi, call):
             sub = repo.modules.get(f"{imp[0]}.{imp[1]}")
             if sub is not None:
                 tgt = sub.funcs.get(f.attr)
+    if not isinstance(tgt, FuncInfo) and isinstance(f, ast.Attribute):
+        tgt = repo._unique_methods().get(f.attr)
     if not isinstance(tgt, FuncInfo):
         return None
     if tgt.cls is not None and not is_method:
